@@ -187,7 +187,11 @@ def run_case(ctx, case):
             W.run_tree(ctx, case, H(ctx, case))
             ctx.note_case(case, gen.competing(case["instance"]))
         elif kind == "consumer":
-            W.run_consumer(ctx, case, W.Hooks())
+            class CH(W.Hooks):
+                def decoded_schedule_differs(self, got, want, where):
+                    ctx.violation("c02_schedule_decoded_from_job_sequences_differs",
+                                  {"where": where, "got": got, "want": want})
+            W.run_consumer(ctx, case, CH())
             ctx.note_case(case, gen.competing(case["instance"]))
         elif kind == "benchmark":
             from job_shop_lib.benchmarking import load_benchmark_instance
